@@ -36,6 +36,8 @@ structure LInWF (ko : KeyOps) (s : LInScope) : Prop where
   lf : ∀ e ∈ s.lf, lenOK e.1.len e.2 = true ∧ Fits e.2
   /-- (since fix `d53`) the scope keeps no peg-in flag / issuance of a global transaction beside its fields -/
   txparts : s.isPegin = false ∧ s.txIssuance = none
+  /-- (since fix `c18-kf1`) a commitment field of the scope starts with 08 / 09 (`_set_commitment`) -/
+  lfPfx : ∀ e ∈ s.lf, e.1.pfxOK e.2 = true
 
 /-- the liquid table in the order `write_to` uses -/
 def Model.LInScope.normLf (lf : List (LInField × Bytes)) : List (LInField × Bytes) :=
@@ -185,7 +187,8 @@ theorem LInField.key_liquid (f : LInField) : isLiquidKey f.key = true := by case
 theorem LInField.ofKey_key (f : LInField) : LInField.ofKey f.key = some f := by cases f <;> decide
 
 /-- the liquid fields, in the order `write_to` emits them, re-enter the table in that order -/
-theorem lin_step_lf (ko : KeyOps) (src : List (LInField × Bytes)) (hsrc : ∀ e ∈ src, lenOK e.1.len e.2 = true) :
+theorem lin_step_lf (ko : KeyOps) (src : List (LInField × Bytes)) (hsrc : ∀ e ∈ src, lenOK e.1.len e.2 = true)
+    (hpfx : ∀ e ∈ src, e.1.pfxOK e.2 = true) :
     ∀ (l : List LInField), l.Nodup → ∀ (s : LInScope), (∀ f ∈ l, lget s.lf f = none) →
     LInScope.addPairs ko s (l.filterMap (fun f => (lget src f).map (fun v => (f.key, v))))
       = some { s with lf := s.lf ++ l.filterMap (fun f => (lget src f).map (fun v => (f, v))) } := by
@@ -202,9 +205,10 @@ theorem lin_step_lf (ko : KeyOps) (src : List (LInField × Bytes)) (hsrc : ∀ e
     | some v =>
       simp only [List.filterMap_cons, hv, Option.map_some]
       have hlen := hsrc (f, v) (lget_mem src f v hv)
+      have hpf := hpfx (f, v) (lget_mem src f v hv)
       have hn : lget s.lf f = none := hdis f (by simp)
       have h1 : LInScope.addPair ko s f.key v = some { s with lf := s.lf ++ [(f, v)] } := by
-        simp [LInScope.addPair, LInField.key_liquid, LInField.ofKey_key, hn, hlen]
+        simp [LInScope.addPair, LInField.key_liquid, LInField.ofKey_key, hn, hlen, hpf]
       simp only [LInScope.addPairs, h1]
       rw [ih hnd.2 { s with lf := s.lf ++ [(f, v)] } (fun g hg => by
         have hne : g ≠ f := fun e => hnd.1 (e ▸ hg)
@@ -295,7 +299,7 @@ theorem LInScope.addPairs_pairs (ko : KeyOps) (version : Option Nat) (s : LInSco
     { LInScope.seedOf version s with nonWitnessUtxo := s.nonWitnessUtxo, witnessUtxo := s.witnessUtxo,
                                      base := s.base.typed }
     (fun kv hkv => (h.unknown kv hkv).2) (by simpa [InScope.typed] using h.unknownNodup)
-  have step5 := lin_step_lf ko s.lf (fun e he => (h.lf e he).1) LInField.order LInField.order_nodup
+  have step5 := lin_step_lf ko s.lf (fun e he => (h.lf e he).1) h.lfPfx LInField.order LInField.order_nodup
     { LInScope.seedOf version s with nonWitnessUtxo := s.nonWitnessUtxo, witnessUtxo := s.witnessUtxo,
                                      base := { s.base.typed with unknown := s.base.typed.unknown ++ s.base.unknown } }
     (fun f _ => by simp [sd3, lget])
@@ -748,13 +752,19 @@ theorem LOutScope.pairsL_norm (s : LOutScope) (ver : Option Nat) : s.norm.pairsL
   simp only [LOutScope.pairsL, LOutScope.lpairs, LOutScope.norm, LOutScope.lget_normLf]
 
 theorem LInWF.norm {ko : KeyOps} {s : LInScope} (h : LInWF ko s) : LInWF ko s.norm := by
-  refine { h with lf := ?_ }
-  intro e he
-  simp only [LInScope.norm, LInScope.normLf, List.mem_filterMap] at he
-  obtain ⟨f, _, hf⟩ := he
-  cases hv : lget s.lf f with
-  | none => simp [hv] at hf
-  | some v => simp [hv] at hf; subst hf; exact h.lf (f, v) (lget_mem _ _ _ hv)
+  refine { h with lf := ?_, lfPfx := ?_ }
+  · intro e he
+    simp only [LInScope.norm, LInScope.normLf, List.mem_filterMap] at he
+    obtain ⟨f, _, hf⟩ := he
+    cases hv : lget s.lf f with
+    | none => simp [hv] at hf
+    | some v => simp [hv] at hf; subst hf; exact h.lf (f, v) (lget_mem _ _ _ hv)
+  · intro e he
+    simp only [LInScope.norm, LInScope.normLf, List.mem_filterMap] at he
+    obtain ⟨f, _, hf⟩ := he
+    cases hv : lget s.lf f with
+    | none => simp [hv] at hf
+    | some v => simp [hv] at hf; subst hf; exact h.lfPfx (f, v) (lget_mem _ _ _ hv)
 
 theorem LOutWF.norm {ko : KeyOps} {s : LOutScope} (h : LOutWF ko s) : LOutWF ko s.norm := by
   refine { h with lf := ?_ }
